@@ -11,6 +11,9 @@ from ..core import HarnessError
 ID = 'C14'
 TITLE = 'eq is a NaN-aware, type-strict equivalence'
 LEVEL = 'exploration'
+TECHNIQUE = 'runtime monitoring: law monitors (total/boolean, symmetric, clone-reflexive, transitive over all triples, kind-strict, agrees with ==) + structural reference model of the statement'
+LEVEL_TEXT = 'All ordered pairs and triples of a ~155 value universe plus random nested universes with one-point mutations. A check says held on K observed executions, never verified.'
+LEVEL_NOTE = 'Trusted: model_eq in the harness; extension arrays and tz-aware stamps are outside the universe. One known finding (date-like transitivity) is reported as KNOWN-FINDING.'
 RULE = ('fixed universe (~150 scalars, numpy scalars, timestamps, empty/non-empty containers of each kind, arrays of several dtypes/shapes incl. 0-d, 0-size and '
         'equal-length-different-shape, Series/DataFrames differing in index/columns/length, nestings): ALL ordered pairs and ALL triples; plus random universes of 30 nested values '
         'with structural clones and one-point mutations; non-trivial = a universe, or a random pair of different container kinds, or a structure with NaN at depth >= 2; distinct = canonical hash')
